@@ -296,13 +296,33 @@ def shape_of(sched):
     return "shared-message" if shared else "own-message"
 
 
+def replay(rep, args):
+    """--replay <file>: re-execute the recorded schedule on the current tree and let TLC judge the new trace."""
+    data = json.load(open(args.replay))
+    sched = data["replay"]["schedule"]
+    res = run_all([sched])[0]
+    if "error" in res:
+        raise MachineryError("driver failed on the replayed schedule\n%s" % res["error"])
+    with tlc.Workdir() as wd:
+        v = validate(wd, sched["tuning"]["MAX_RETRANSMIT"], [res["events"]])[0]
+    for e in res["events"]:
+        print("   ", short(e))
+    for name in sorted(v["bad"]):
+        rep.violation(name.split(":")[0], "%s|%s" % (name, shape_of(sched)),
+                      "clause %s false at event %d of the replayed execution (%d events)" % (name, v["bad"][name], len(res["events"])),
+                      {"schedule": sched, "events": res["events"], "meta": res["meta"], "clause_at": v["bad"]})
+    rep.coverage.update({"states": 0, "transitions": 0, "traces_validated_against_impl": 1, "replayed": args.replay, "samples": []})
+
+
 def work(rep, args):
+    if args.replay:
+        return replay(rep, args)
     quick = args.tier == "quick"
     seed = args.seed
     rng = random.Random(seed * 7919 + 8)
     if quick:
         mc_confs = [dict(mr=1, nobs=2, chg=2, env=3, sil=2, maxt=4), dict(mr=1, nobs=1, chg=3, env=3, sil=2, maxt=4)]
-        nsim, nrand = 150, 400
+        nsim, nrand = 120, 320
     else:
         mc_confs = [dict(mr=1, nobs=2, chg=3, env=3, sil=2, maxt=4), dict(mr=1, nobs=1, chg=3, env=4, sil=2, maxt=4), dict(mr=2, nobs=1, chg=3, env=3, sil=3, maxt=8)]
         nsim, nrand = 1500, 5000
